@@ -2282,9 +2282,9 @@ func TestVerifC13(t *testing.T) {
 				c.Muts = []c13Mut{m}
 				add(c)
 				if thorough {
-					// Every relevant version and position is swept; six split
+					// Every relevant version and position is swept; four split
 					// points per document keep the tier within its budget.
-					c.SplitAll, c.MaxSplits = false, 6
+					c.SplitAll, c.MaxSplits = false, 4
 				}
 				rep.Event("systematic_hostile_string_cases")
 			}
